@@ -20,6 +20,10 @@ JAR = '/opt/veriftools/tla/tla2tools.jar'
 DEPS = '/opt/veriftools/tla/CommunityModules-deps.jar'
 
 
+# many small JVMs in parallel contend badly in this sandbox: keep each one small and run at most four
+JUDGE_JVM = ('-XX:+UseSerialGC', '-Xmx3g', '-XX:ActiveProcessorCount=2')
+
+
 class TLCResult(object):
     def __init__(self):
         self.ok = False
@@ -35,7 +39,8 @@ class TLCResult(object):
 
 
 def _java_cmd(extra_jvm=()):
-    return ['java', '-XX:+UseParallelGC', '-Xss16m'] + list(extra_jvm) + ['-cp', JAR + ':' + DEPS, 'tlc2.TLC']
+    gc = [] if any('GC' in x for x in extra_jvm) else ['-XX:+UseParallelGC']
+    return ['java'] + gc + ['-Xss16m'] + list(extra_jvm) + ['-cp', JAR + ':' + DEPS, 'tlc2.TLC']
 
 
 def run_tlc(module, cfg, workers=None, timeout=3600, coverage=False, env=None, simulate=None, depth=None,
@@ -86,10 +91,11 @@ def run_tlc(module, cfg, workers=None, timeout=3600, coverage=False, env=None, s
         r.violated.append('<temporal>')
     r.ok = (rc == 0 and 'Error:' not in out and not r.violated)
     if coverage:
-        # "<Name line a, col b to line c, col d of module M>: x:y"
+        # "<Name line a, col b to line c, col d of module M>: distinct:generated"; interim reports may precede the final one
+        last = {}
         for m in re.finditer(r'^<(\w+) line \d+, col \d+ to line \d+, col \d+ of module (\w+)>: (\d+):(\d+)', out, re.M):
-            if int(m.group(4)) == 0 and m.group(1) not in r.uncovered:
-                r.uncovered.append(m.group(1))
+            last[m.group(1)] = int(m.group(4))
+        r.uncovered = sorted(k for k, v in last.items() if v == 0)
     return r
 
 
@@ -190,7 +196,7 @@ def judge(module, cfg, records, shards=None, timeout=3600, tag='judge', env=None
     """
     if not records:
         return {}, 0
-    shards = shards or min(NCPU, max(1, len(records) // 200))
+    shards = shards or min(4, max(1, (len(records) + 19999) // 20000))
     d = outdir('tlc', tag + '_' + uuid.uuid4().hex[:8])
     files = []
     per = (len(records) + shards - 1) // shards
@@ -210,7 +216,7 @@ def judge(module, cfg, records, shards=None, timeout=3600, tag='judge', env=None
         e = {'TRACE_FILE': path}
         if env:
             e.update(env)
-        r = run_tlc(module, cfg, workers=1, timeout=timeout, env=e)
+        r = run_tlc(module, cfg, workers=1, timeout=timeout, env=e, jvm=JUDGE_JVM)
         if not r.ok:
             tail = '\n'.join(r.stdout.splitlines()[-30:])
             raise MachineryError('TLC judge %s failed on %s (rc=%s):\n%s' % (module, path, r.returncode, tail))
@@ -220,14 +226,14 @@ def judge(module, cfg, records, shards=None, timeout=3600, tag='judge', env=None
         out = {}
         for line in r.stdout.splitlines():
             line = line.strip()
-            if line.startswith('"[\\"VERDICT\\"'):
+            if line.startswith('"[\\"VERDICT\\"') or line.startswith('"[\\"MEANING\\"'):
                 vals = json.loads(json.loads(line))
                 out[str(vals[1])] = vals[2:]
         return out, n
 
     verdicts = {}
     judged = 0
-    with ThreadPoolExecutor(max_workers=NCPU) as ex:
+    with ThreadPoolExecutor(max_workers=4) as ex:
         for out, n in ex.map(one, files):
             verdicts.update(out)
             judged += n
